@@ -19,6 +19,15 @@ func monitorC12(w *World, r *Result) *Violation {
 	switch {
 	case r.Exit == -1:
 		return &Violation{Property: "C12", Sig: "panic:" + panicSite(r.Panic), Detail: "the build command panicked\n" + r.Panic, Worlds: []*World{w}, Mode: "single", Expect: []string{digest(r)}}
+	case r.Exit == -3:
+		first := r.Panic
+		if i := strings.Index(first, "fatal error:"); i >= 0 {
+			first = first[i:]
+		}
+		if i := strings.Index(first, "\n"); i >= 0 {
+			first = first[:i]
+		}
+		return &Violation{Property: "C12", Sig: "process-died:" + reDigits.ReplaceAllString(first, "N"), Detail: "the build process died\n" + r.Panic, Worlds: []*World{w}, Mode: "single", Expect: []string{digest(r)}}
 	case r.Exit == -2:
 		return &Violation{Property: "C12", Sig: "hang:" + w.Class, Detail: r.Panic, Worlds: []*World{w}, Mode: "single", Expect: []string{digest(r)}}
 	case r.Exit != 0 && r.Exit != 1:
